@@ -170,9 +170,19 @@ def rule_a(ctx):
         c = ctx.repo.cls(spec)
         for name in ('request_stream', 'request_channel'):
             f = c.lookup(name)
-            src = ast.unparse(f.node)
-            ok = '.initial_request_n(request_limit)' in src and 'from_rsocket_publisher(response_publisher, ' \
-                                                                'request_limit)' in src
+            limit = 'request_limit'
+            ok = limit in f.params()
+            init_ok = wrap_ok = False
+            for node in walk_local(f.node):
+                if isinstance(node, ast.Call) and isinstance(node.func, ast.Attribute) and \
+                        node.func.attr == 'initial_request_n' and len(node.args) == 1 and \
+                        isinstance(node.args[0], ast.Name) and node.args[0].id == limit:
+                    init_ok = True
+                if isinstance(node, ast.Call) and isinstance(node.func, ast.Name) and \
+                        node.func.id == 'from_rsocket_publisher' and len(node.args) == 2 and \
+                        isinstance(node.args[1], ast.Name) and node.args[1].id == limit:
+                    wrap_ok = True
+            ok = ok and init_ok and wrap_ok
             rep.add('C06.a', '%s.%s / request_limit used for both initial and subsequent credit' % (c.name, name), f,
                     ok, 'initial_request_n(request_limit) and from_rsocket_publisher(..., request_limit)' if ok else
                     'request_limit is not passed unmodified to both places')
